@@ -1,5 +1,189 @@
-import Spec.Rev
-import Model.Rev.Heads
-/-! # C03 (theorems: work in progress) -/
+import Lemmas.Rev.HeadsFacts
+import Props.C02
+/-!
+# C03 — the version table always holds exactly the heads of the applied set
+
+About `Model.Rev.updateToStep` / `runSteps` (mirror of `HeadMaintainer.update_to_step`,
+`RevisionStep.should_*`, `merge_branch_idents`, `_unmerge_to_revisions`,
+`update_version_num`, and the three row statements with their one-row checks).
+`RowsInv m A R`: the table `R` has no duplicate, and holds exactly the applied revisions
+(`A`) that no applied revision needs; `A` contains the prerequisites of its members.
+-/
 namespace C03
+open Model.Rev Spec.Rev Lemmas.Rev C01 C02
+
+/-- the table after each step of a run is consistent with the applied set after that step -/
+def TraceInv (m : LMap) : List Id → List (Id × Bool) → List (List Id) → Prop
+  | _, [], [] => True
+  | A, (r, up) :: steps, rows :: rest =>
+    let A' := if up then r :: A else A.filter (· != r)
+    RowsInv m A' rows ∧ TraceInv m A' steps rest
+  | _, _, _ => False
+
+/-- an upgrade plan that is applicable from the applied set `A` -/
+def UpOk (m : LMap) : List Id → List Id → Prop
+  | _, [] => True
+  | A, r :: rest => r ∉ A ∧ (∀ p ∈ m.allDownOf r, p ∈ A) ∧ UpOk m (r :: A) rest
+
+/-- a downgrade plan that is applicable: each revision is maximal when its turn comes -/
+def DownOk (m : LMap) : List Id → List Id → Prop
+  | _, [] => True
+  | A, r :: rest => IsMax m A r ∧ DownOk m (A.filter (· != r)) rest
+
+/-- **One step** (both directions), the statement of the property for a single migration. -/
+theorem step {m : LMap} (L : Loaded m) {A R : List Id} (inv : RowsInv m A R) (r : Id) (up : Bool)
+    (h : if up then r ∉ A ∧ (∀ p ∈ m.allDownOf r, p ∈ A) else IsMax m A r) :
+    ∃ R' st, updateToStep m R (.rev r up) = .ok (R', st) ∧
+      RowsInv m (if up then r :: A else A.filter (· != r)) R' := by
+  cases up with
+  | true => simp only [if_true] at h ⊢; exact step_up L inv r h.1 h.2
+  | false =>
+    simp only [Bool.false_eq_true, if_false] at h ⊢
+    exact step_down L inv r ((inv.rows r).mpr h)
+
+theorem run_up {m : LMap} (L : Loaded m) : ∀ (plan : List Id) (A R : List Id), RowsInv m A R → UpOk m A plan →
+    ∃ trace, runSteps m R (plan.map (Step.rev · true)) = .ok trace ∧
+      TraceInv m A (plan.map (·, true)) trace
+  | [], A, R, _, _ => ⟨[], by simp [runSteps], by simp [TraceInv]⟩
+  | r :: rest, A, R, inv, hok => by
+    obtain ⟨h1, h2, h3⟩ := hok
+    obtain ⟨R', st, hstep, inv'⟩ := step_up L inv r h1 h2
+    obtain ⟨tr, htr, hinv⟩ := run_up L rest (r :: A) R' inv' h3
+    refine ⟨R' :: tr, ?_, ?_⟩
+    · simp only [List.map_cons, runSteps, hstep, htr]
+    · simp only [List.map_cons, TraceInv, if_true]; exact ⟨inv', hinv⟩
+
+theorem run_down {m : LMap} (L : Loaded m) : ∀ (plan : List Id) (A R : List Id), RowsInv m A R → DownOk m A plan →
+    ∃ trace, runSteps m R (plan.map (Step.rev · false)) = .ok trace ∧
+      TraceInv m A (plan.map (·, false)) trace
+  | [], A, R, _, _ => ⟨[], by simp [runSteps], by simp [TraceInv]⟩
+  | r :: rest, A, R, inv, hok => by
+    obtain ⟨h1, h2⟩ := hok
+    obtain ⟨R', st, hstep, inv'⟩ := step_down L inv r ((inv.rows r).mpr h1)
+    obtain ⟨tr, htr, hinv⟩ := run_down L rest (A.filter (· != r)) R' inv' h2
+    refine ⟨R' :: tr, ?_, ?_⟩
+    · simp only [List.map_cons, runSteps, hstep, htr]
+    · simp only [List.map_cons, TraceInv, Bool.false_eq_true, if_false]; exact ⟨inv', hinv⟩
+
+/-- the applied set is what the rows imply -/
+theorem applied_iff_requires {m : LMap} (L : Loaded m) {A R : List Id} (inv : RowsInv m A R) (x : Id) :
+    x ∈ A ↔ Requires m R x := by
+  constructor
+  · intro hx
+    obtain ⟨h, hmax, hr⟩ := exists_max_above L A x hx
+    exact ⟨h, (inv.rows h).mpr hmax, hr⟩
+  · rintro ⟨r, hr, hreach⟩
+    exact closedA_reach inv.closed ((inv.rows r).mp hr).1 hreach
+
+/-- the plans of C01 are applicable -/
+theorem upOk_of_plan {m : LMap} : ∀ (plan A : List Id), plan.Nodup → (∀ x ∈ plan, x ∉ A) →
+    (∀ pre x post, plan = pre ++ x :: post → ∀ p ∈ m.allDownOf x, p ∈ A ∨ p ∈ pre) → UpOk m A plan
+  | [], _, _, _, _ => trivial
+  | r :: rest, A, hnd, hnot, hord => by
+    have hnd' := List.nodup_cons.mp hnd
+    refine ⟨hnot r List.mem_cons_self, ?_, ?_⟩
+    · intro p hp
+      rcases hord [] r rest rfl p hp with h | h
+      · exact h
+      · simp at h
+    · apply upOk_of_plan rest (r :: A) hnd'.2
+      · intro x hx hxa
+        rcases List.mem_cons.mp hxa with e | h
+        · subst e; exact hnd'.1 hx
+        · exact hnot x (List.mem_cons_of_mem _ hx) h
+      · intro pre x post hrest p hp
+        rcases hord (r :: pre) x post (by rw [hrest]; rfl) p hp with h | h
+        · exact Or.inl (List.mem_cons_of_mem _ h)
+        · rcases List.mem_cons.mp h with e | h
+          · exact Or.inl (by rw [e]; exact List.mem_cons_self)
+          · exact Or.inr h
+
+/-- the plans of C02 are applicable -/
+theorem downOk_of_plan {m : LMap} : ∀ (plan A : List Id), plan.Nodup → (∀ x ∈ plan, x ∈ A) →
+    (∀ pre x post, plan = pre ++ x :: post → ∀ c ∈ A, x ∈ m.allDownOf c → c ∈ pre) → DownOk m A plan
+  | [], _, _, _, _ => trivial
+  | r :: rest, A, hnd, hin, hord => by
+    have hnd' := List.nodup_cons.mp hnd
+    refine ⟨⟨hin r List.mem_cons_self, ?_⟩, ?_⟩
+    · intro c hc hrc
+      have := hord [] r rest rfl c hc hrc
+      simp at this
+    · apply downOk_of_plan rest (A.filter (· != r)) hnd'.2
+      · intro x hx
+        refine List.mem_filter.mpr ⟨hin x (List.mem_cons_of_mem _ hx), ?_⟩
+        have : x ≠ r := fun e => hnd'.1 (e ▸ hx)
+        simpa using this
+      · intro pre x post hrest c hc hxc
+        have hc' := List.mem_filter.mp hc
+        have := hord (r :: pre) x post (by rw [hrest]; rfl) c hc'.1 hxc
+        rcases List.mem_cons.mp this with e | h
+        · have : c ≠ r := by simpa using hc'.2
+          exact absurd e this
+        · exact h
+
+/-- **C03 for an upgrade.** From a consistent table, running any upgrade plan chosen by Alembic
+(`C01.UpgradePlan` for the current rows) records every step without a failing statement, and
+after every step the table holds exactly the maximal applied revisions. -/
+theorem upgrade_run {m : LMap} (L : Loaded m) {A R targets plan : List Id} (inv : RowsInv m A R)
+    (hplan : UpgradePlan m R targets plan) :
+    ∃ trace, runSteps m R (plan.map (Step.rev · true)) = .ok trace ∧
+      TraceInv m A (plan.map (·, true)) trace := by
+  apply run_up L plan A R inv
+  apply upOk_of_plan plan A hplan.nodup
+  · intro x hx hxA
+    exact ((hplan.exact x).mp hx).2 ((applied_iff_requires L inv x).mp hxA)
+  · intro pre x post h p hp
+    rcases hplan.order pre x post h p hp with h1 | h1
+    · exact Or.inl ((applied_iff_requires L inv p).mpr h1)
+    · exact Or.inr h1
+
+/-- **C03 for a downgrade.** -/
+theorem downgrade_run {m : LMap} (L : Loaded m) {A R roots plan : List Id} (inv : RowsInv m A R)
+    (hplan : DowngradePlan m R roots plan) :
+    ∃ trace, runSteps m R (plan.map (Step.rev · false)) = .ok trace ∧
+      TraceInv m A (plan.map (·, false)) trace := by
+  apply run_down L plan A R inv
+  apply downOk_of_plan plan A hplan.nodup
+  · intro x hx
+    exact (applied_iff_requires L inv x).mpr ((hplan.exact x).mp hx).2
+  · intro pre x post h c hc hxc
+    have hcids : c ∈ m.ids := by
+      apply Classical.byContradiction
+      intro hn; rw [allDownOf_nil m c hn] at hxc; simp at hxc
+    exact hplan.order pre x post h c hcids hxc ((applied_iff_requires L inv c).mp hc)
+
+/-- the empty table is consistent with nothing applied: every command sequence starts here -/
+theorem init (m : LMap) : RowsInv m [] [] :=
+  ⟨by simp, by intro x; simp [IsMax], by simp⟩
+
+/-- **`upgrade heads` ends with the heads, `downgrade base` with an empty table**: a table
+consistent with "everything applied" holds exactly the revisions nothing depends on, and a
+table consistent with "nothing applied" is empty. -/
+theorem all_applied_rows {m : LMap} {A R : List Id} (inv : RowsInv m A R) (hall : ∀ x, x ∈ A ↔ x ∈ m.ids) (x : Id) :
+    x ∈ R ↔ x ∈ m.ids ∧ ∀ c ∈ m.ids, x ∉ m.allDownOf c := by
+  rw [inv.rows x]; unfold IsMax
+  constructor
+  · rintro ⟨h1, h2⟩; exact ⟨(hall x).mp h1, fun c hc => h2 c ((hall c).mpr hc)⟩
+  · rintro ⟨h1, h2⟩; exact ⟨(hall x).mpr h1, fun c hc => h2 c ((hall c).mp hc)⟩
+
+theorem none_applied_rows {m : LMap} {R : List Id} (inv : RowsInv m [] R) : R = [] := by
+  apply List.eq_nil_iff_forall_not_mem.mpr
+  intro x hx; have := (inv.rows x).mp hx; simp [IsMax] at this
+
+/-! ### non-vacuity: a merge with a redundant parent (the shape of the repaired defects F2/F3) -/
+
+def demo3 : Hist :=
+  [⟨"a", [], [], []⟩, ⟨"b", [], [], []⟩, ⟨"c", [], ["a"], []⟩, ⟨"d", ["a", "b"], ["c"], []⟩]
+
+def tracesAre (r : Except Err (List (List Id))) (l : List (List Id)) : Bool :=
+  match r with | .ok x => x == l | .error _ => false
+
+example : tracesAre ((load demo3).bind (fun m =>
+    (upgradeRevs m [] "heads").bind (fun p => runSteps m [] (p.map (Step.rev · true)))))
+    [["a"], ["a", "b"], ["b", "c"], ["d"]] = true := by decide +kernel
+
+example : tracesAre ((load demo3).bind (fun m =>
+    (downgradeRevs m ["d"] "base").bind (fun p => runSteps m ["d"] (p.map (Step.rev · false)))))
+    [["b", "c"], ["b", "a"], ["a"], []] = true := by decide +kernel
+
 end C03
